@@ -2256,3 +2256,71 @@ async fn d3b_delete_at_bottom_keeps_tombstone_while_an_older_reader_is_open() {
 	assert_eq!(t2.begin().unwrap().get(b"k").unwrap(), None, "after reopen");
 	t2.close().await.unwrap();
 }
+
+// D28b: the windowed history agrees with the unfiltered one restricted to the window -- in both directions, with the
+// barrier in its own table above the window, with a replace instead of a delete, after compaction, with both back ends.
+#[tokio::test(flavor = "multi_thread")]
+async fn d28b_windowed_history_is_the_unfiltered_history_restricted_to_the_window() {
+	use crate::transaction::{HistoryOptions, WriteOptions};
+	for with_index in [false, true] {
+		let d = td();
+		let opts = mk_opts(d.path().to_path_buf(), |o| {
+			o.enable_versioning = true;
+			o.enable_vlog = true;
+			o.vlog_value_threshold = 0;
+			o.enable_versioned_index = with_index;
+			o.level_count = 3;
+		});
+		let tree = Tree::new(Arc::clone(&opts)).unwrap();
+		// a: two versions inside the window, erased by a hard delete ABOVE it (in a table of its own)
+		// b: a version inside the window, replaced above it (the replace erases it)
+		// c: plain versions inside and outside the window
+		for (k, v, ts) in [(b"a", b"a10", 10u64), (b"a", b"a15", 15), (b"b", b"b12", 12), (b"c", b"c08", 8), (b"c", b"c18", 18)] {
+			let mut tx = tree.begin().unwrap();
+			tx.set_at(&k[..], &v[..], ts).unwrap();
+			tx.commit().await.unwrap();
+		}
+		tree.flush().unwrap();
+		{
+			let mut tx = tree.begin().unwrap();
+			tx.delete_with_options(b"a", &WriteOptions::default().with_timestamp(Some(30))).unwrap();
+			tx.commit().await.unwrap();
+		}
+		tree.flush().unwrap();
+		{
+			let mut tx = tree.begin().unwrap();
+			tx.replace(b"b", b"b-now").unwrap(); // timestamp = now, far above the window
+			tx.set_at(b"c", b"c40", 40).unwrap();
+			tx.commit().await.unwrap();
+		}
+		let scan = |tree: &Tree, ho: &HistoryOptions, forward: bool| {
+			let tx = tree.begin().unwrap();
+			let mut it = tx.history_with_options(&b"a"[..], &b"z"[..], ho).unwrap();
+			let mut v = vec![];
+			let mut ok = if forward { it.seek_first().unwrap() } else { it.seek_last().unwrap() };
+			while ok {
+				v.push((String::from_utf8_lossy(it.key().user_key()).to_string(), it.key().timestamp()));
+				ok = if forward { it.next().unwrap() } else { it.prev().unwrap() };
+			}
+			if !forward {
+				v.reverse();
+			}
+			v
+		};
+		let check = |tree: &Tree, stage: &str| {
+			let all = HistoryOptions { include_tombstones: false, ts_range: None, limit: None };
+			let win = HistoryOptions { include_tombstones: false, ts_range: Some((5, 20)), limit: None };
+			let full = scan(tree, &all, true);
+			let want: Vec<_> = full.iter().filter(|(_, ts)| (5..=20).contains(ts)).cloned().collect();
+			assert_eq!(want, vec![("c".to_string(), 18), ("c".to_string(), 8)], "precondition ({stage}, index={with_index}): full history {full:?}");
+			assert_eq!(scan(tree, &win, true), want, "D28b {stage}, index={with_index}: forward windowed history");
+			assert_eq!(scan(tree, &win, false), want, "D28b {stage}, index={with_index}: backward windowed history");
+		};
+		check(&tree, "memtable + two tables");
+		tree.flush().unwrap();
+		check(&tree, "three tables");
+		tree.compact(Arc::new(Strategy::default())).unwrap();
+		check(&tree, "after compaction");
+		let _ = tokio::time::timeout(std::time::Duration::from_secs(10), tree.close()).await;
+	}
+}
